@@ -9,7 +9,9 @@ Decided with spec/MeshGeom.tla (+ MeshGeomTrace.tla):
  3. code -> spec: what the code computed is recorded and validated by TLC, which recomputes the exact rationals; the
     harness' float reference (ref_cot) is validated in the same traces.
  4. generated meshes (Device.make_mesh on boxes / ellipses / unions / resampled outlines, holes, terminals x mesh
-    settings x coherence lengths) are recorded as one-state traces of quantised integers; MeshGeom!GenAll decides.
+    settings x coherence lengths; NON-CONVEX holes and films given vertex by vertex: C-shaped annular sectors, L / U / plus
+    shapes, with the centroid inside or outside the outline, alone or two at once - their reference domain is the vertex
+    list itself) are recorded as one-state traces of quantised integers; MeshGeom!GenAll decides.
  5. histories (spec/DevHeap.tla): chains of Device operations on meshed devices (copy / deepcopy / copy.copy,
     translate in place or not, rotate, scale, the translation() context manager, make_mesh again) are enumerated by
     TLC (invariant MeshMatchesOwnOutline; the in-place-shifted shared mesh must violate it), replayed on real devices,
@@ -18,6 +20,7 @@ Decided with spec/MeshGeom.tla (+ MeshGeomTrace.tla):
 """
 import copy
 import json
+import math
 import random
 
 from harness import core, meshgeom as mg
@@ -147,6 +150,101 @@ def gen_matrix(ctx):
         else:
             out.append(tag(dict(film=copy.deepcopy(rnd.choice(films[:4] + films[6:7])), holes=[], terminals=[],
                                 mesh=dict(max_edge_length=rnd.choice([0.6, 0.8]), smooth=rnd.choice([1, 3, 10])), xi=1.0, via="polygon.make_mesh"), fam))
+    # ... and NON-CONVEX holes / films given vertex by vertex (own random stream: the matrix above stays as it was)
+    # (appended: the order of the other descriptions, and which rejected traces get diagnosed first, stay as they were)
+    out += nonconvex_matrix(ctx, random.Random(ctx.seed * 17 + 29))
+    return out
+
+
+# ---- outlines given vertex by vertex: NON-CONVEX holes and films (the harness makes the vertices, see meshgeom.explicit_points)
+def c_shape(r_in, width, half, n=20, center=(0, 0), angle=0, **kw):
+    """annular sector between r_in and r_in + width, opening angle 2 pi - 2 half; for large `half` its centroid lies in the opening"""
+    return dict(kind="cshape", r_in=r_in, r_out=round(r_in + width, 3), half=half, n=n, center=center, angle=angle, **kw)
+
+
+def _centred(verts, **kw):
+    """explicit vertex list, moved so that its bounding box is centred at the local origin"""
+    xs, ys = [v[0] for v in verts], [v[1] for v in verts]
+    cx, cy = (min(xs) + max(xs)) / 2, (min(ys) + max(ys)) / 2
+    return dict(kind="verts", verts=[[round(x - cx, 6), round(y - cy, 6)] for x, y in verts], **kw)
+
+
+def l_shape(a, b, ta, tb, **kw):
+    """an L: a x b bounding box, horizontal arm of thickness ta, vertical arm of thickness tb (thin arms: centroid outside)"""
+    return _centred([[0, 0], [a, 0], [a, ta], [tb, ta], [tb, b], [0, b]], **kw)
+
+
+def u_shape(w, h, t, tb, **kw):
+    """a U: w x h bounding box, arms of thickness t, bottom of thickness tb (deep notch: centroid in the notch)"""
+    return _centred([[0, 0], [w, 0], [w, h], [w - t, h], [w - t, tb], [t, tb], [t, h], [0, h]], **kw)
+
+
+def plus_shape(a, t, **kw):
+    """a plus sign of arm length a and arm thickness t: non-convex, centroid inside"""
+    h = t / 2
+    return _centred([[h, -a], [h, -h], [a, -h], [a, h], [h, h], [h, a], [-h, a], [-h, h], [-a, h], [-a, -h], [-h, -h], [-h, -a]], **kw)
+
+
+def nonconvex_matrix(ctx, rnd):
+    """film x holes where at least one outline is given vertex by vertex and is not convex (center = where the bounding box
+    centre of an L / U / plus, or the circle centre of a C, goes; angle = turn about that point)"""
+    tag = lambda d: dict(d, family="nonconvex")
+    big = dict(kind="box", w=6, h=6, points=120)
+    out = []
+    # the holes alone in a 6 x 6 film; "out": the hole's centroid lies outside the hole
+    fixed = [
+        ([c_shape(1.0, 0.5, 2.4, n=40)], dict(max_edge_length=0.4), 0.5),                                   # C, out (opening 1.48 rad)
+        ([c_shape(1.0, 0.5, 0.6, n=12, center=(-0.5, 0.3), angle=30)], dict(max_edge_length=0.6), 1.0),    # short arc ("banana"), inside
+        ([u_shape(2.0, 1.6, 0.35, 0.3, center=(0.2, -0.1))], dict(max_edge_length=0.6), 1.0),               # U with a deep notch, out
+        ([l_shape(1.6, 1.6, 0.9, 0.9, center=(-0.3, 0.2), angle=10)], dict(max_edge_length=0.6, smooth=5), 1.0),   # thick L, inside
+        # C (out) around a small round hole that sits on the C's centroid
+        ([c_shape(1.0, 0.5, 2.4, n=24, center=(0.1, -0.2), angle=25), dict(kind="circle", r=0.3, points=12, center=(0.42, -0.05))], dict(max_edge_length=0.6), 1.0),
+        ([plus_shape(1.2, 0.5, center=(1.2, 1.0), angle=20), l_shape(1.8, 1.8, 0.3, 0.3, center=(-1.5, -1.5), reverse=True)],
+         dict(max_edge_length=0.6), 0.5),                                                                     # plus (inside) + thin L (out)
+    ]
+    for hs, me, xi in fixed:
+        out.append(tag(dict(film=big, holes=hs, terminals=[], mesh=me, xi=xi)))
+    # non-convex FILMS given vertex by vertex, with a convex and with a non-convex hole
+    out.append(tag(dict(film=l_shape(7, 7, 3.5, 3.5), holes=[dict(kind="circle", r=0.7, points=16, center=(-1.7, -1.7))],
+                        terminals=[], mesh=dict(max_edge_length=0.7), xi=1.0)))
+    out.append(tag(dict(film=c_shape(1.5, 2.5, 2.5, n=30), holes=[c_shape(2.4, 0.5, 0.9, n=10, angle=60)],
+                        terminals=[], mesh=dict(max_edge_length=0.7), xi=1.0)))
+    if ctx.quick:
+        return out
+    out.append(tag(dict(film=u_shape(8, 6, 2.5, 2.0), holes=[u_shape(1.6, 1.2, 0.3, 0.3, center=(-2.75, 0.5))],
+                        terminals=[], mesh=dict(max_edge_length=0.7), xi=1.0)))
+    boxes = [big, dict(kind="box", w=7, h=6, points=80, center=(0.3, -0.2)), dict(kind="box", w=6.5, h=6.5, points=60, angle=15)]
+    films = boxes + [dict(kind="ellipse", a=3.8, b=3.4, points=60)]
+    for _ in range(110):
+        ang = rnd.choice([0, 0, 30, 90, 145, 180, 250])
+        c = (round(rnd.uniform(-0.6, 0.6), 2), round(rnd.uniform(-0.6, 0.6), 2))
+        sort = rnd.choice(["c", "c", "c+dot", "l", "u", "plus", "two"])
+        film = copy.deepcopy(rnd.choice(boxes if sort == "two" else films))
+        if sort in ("c", "c+dot", "two"):
+            if sort == "two":
+                c = (round(c[0] / 2, 2), round(c[1] / 2, 2))
+            r_in = round(rnd.uniform(0.7, 0.9 if sort == "two" else 1.2), 2)
+            h = c_shape(r_in, round(rnd.uniform(0.3, 0.4 if sort == "two" else 0.6), 2), rnd.choice([0.5, 0.9, 1.3, 1.7, 2.1, 2.4, 2.7, 2.9]),
+                        n=rnd.choice([8, 14, 24, 40]), center=c, angle=ang, reverse=rnd.random() < 0.3)
+            hs = [h]
+            if sort == "c+dot":     # a small round hole somewhere in the C's inner disc (often near the C's centroid)
+                rr = rnd.uniform(0.0, 1.0) * (r_in - 0.4)
+                th = math.radians(ang) + rnd.uniform(-0.3, 0.3)
+                hs.append(dict(kind="circle", r=0.25, points=10, center=(round(c[0] + rr * math.cos(th), 3), round(c[1] + rr * math.sin(th), 3))))
+            if sort == "two":       # a second non-convex hole in a corner of the film
+                hs.append(rnd.choice([l_shape(1.0, 1.2, rnd.choice([0.25, 0.6]), 0.3, center=(-2.2, -2.1)),
+                                      u_shape(1.4, 1.0, 0.3, rnd.choice([0.25, 0.6]), center=(2.0, -2.3))]))
+        elif sort == "l":
+            a, b = round(rnd.uniform(1.2, 2.2), 1), round(rnd.uniform(1.2, 2.2), 1)
+            hs = [l_shape(a, b, round(rnd.uniform(0.25, 1.0), 2), round(rnd.uniform(0.25, 1.0), 2), center=c, angle=ang, reverse=rnd.random() < 0.3)]
+        elif sort == "u":
+            w, hh = round(rnd.uniform(1.4, 2.4), 1), round(rnd.uniform(1.2, 2.0), 1)
+            hs = [u_shape(w, hh, round(rnd.uniform(0.25, 0.5), 2), round(rnd.uniform(0.25, 0.9), 2), center=c, angle=ang, reverse=rnd.random() < 0.3)]
+        else:
+            hs = [plus_shape(round(rnd.uniform(0.9, 1.5), 1), round(rnd.uniform(0.3, 0.7), 2), center=c, angle=ang)]
+        me = rnd.choice([dict(max_edge_length=0.6), dict(max_edge_length=0.5), dict(max_edge_length=0.7, smooth=5), dict(min_points=400),
+                         dict(max_edge_length=0.6, min_points=300, smooth=2)])
+        out.append(tag(dict(film=film, holes=hs, terminals=[], mesh=me, xi=rnd.choice([1.0, 0.5, 2.0]))))
     return out
 
 
@@ -155,7 +253,8 @@ def run(ctx):
              Offsets=[1, 2] if ctx.quick else [1, 2, 3])
     ctx.cov["bounds"] = {"MeshGeom": b, "instances": "sub-complexes of acute integer lattices: blocks up to 16 sites, strips, every "
                          "edge-connected manifold subset (>= 2 triangles) of the 2x2 block, a ring with one hole",
-                         "generated": "see gen_matrix: films x holes x terminals x mesh settings x coherence length"}
+                         "generated": "see gen_matrix: films x holes x terminals x mesh settings x coherence length; nonconvex_matrix: "
+                         "non-convex holes / films given vertex by vertex (8 quick, 119 thorough)"}
     # ---- 1/2. design + export
     r = ctx.model_check("MeshGeom", mg.model_cfg(b, mg.THEOREMS + ["Emit"]), name="MeshGeom[theorems + instance export]",
                         required_actions=["Place", "Choose"])
@@ -194,6 +293,7 @@ def run(ctx):
     per = 40
     jobs = [("exact_traces", dict(instances=instances[k:k + per])) for k in range(0, len(instances), per)]
     gens = gen_matrix(ctx)
+    n_nonconvex = sum(1 for g in gens if g.get("family") == "nonconvex")
     jobs += [("gen_trace", g) for g in gens]
     jobs += [("hist_trace", dict(chain=c, device=["barhole", "ellipse"][n % 2])) for n, c in enumerate(histories)]
     # separate interpreters: a crash of the mesh generator is an observation; few, large batches (start-up dominates)
@@ -261,8 +361,23 @@ def run(ctx):
             "flat sliver terminals": lambda s: s.get("family") == "sliver-terminals",
             "Mesh.smooth(n) result": lambda s: s.get("via") == "mesh.smooth",
             "Polygon.make_mesh(smooth=n) result": lambda s: s.get("via") == "polygon.make_mesh" and s["mesh"].get("smooth", 0) >= 1,
+            # outlines given vertex by vertex (centroid inside / outside: decided by the harness on its own vertex list)
+            "non-convex hole (vertex list) whose centroid lies inside the hole": lambda s: any(h["kind"] in mg.EXPLICIT and not mg.centroid_outside(h) for h in s["holes"]),
+            "non-convex hole (vertex list) whose centroid lies OUTSIDE the hole": lambda s: any(h["kind"] in mg.EXPLICIT and mg.centroid_outside(h) for h in s["holes"]),
+            "C-shaped hole (centroid outside) around a second hole": lambda s: len(s["holes"]) == 2 and s["holes"][0]["kind"] == "cshape" and mg.centroid_outside(s["holes"][0]) and s["holes"][1]["kind"] == "circle",
+            "two holes, both non-convex": lambda s: sum(1 for h in s["holes"] if h["kind"] in mg.EXPLICIT) >= 2,
+            "non-convex film (vertex list)": lambda s: s["film"]["kind"] in mg.EXPLICIT,
         }
         ctx.cov["generated_families_accepted"] = {k: sum(1 for t in okg if f(spec(t))) for k, f in fams.items()}
+        ctx.cov["nonconvex_descriptions"] = {"given": n_nonconvex,
+                                             "accepted": sum(1 for t in okg if spec(t).get("family") == "nonconvex"),
+                                             "accepted_with_the_domain_from_the_vertex_lists": sum(1 for t in okg if spec(t).get("family") == "nonconvex" and t["ANA"]["have"]),
+                                             "skipped_as_ill_formed": sum(1 for t in invalid if '"family": "nonconvex"' in t["key"]),
+                                             "refused_by_the_code": sum(1 for t in refused if '"family": "nonconvex"' in t["key"])}
+        nc = ctx.cov["nonconvex_descriptions"]
+        if nc["accepted"] != nc["accepted_with_the_domain_from_the_vertex_lists"] or (ctx.quick and nc["skipped_as_ill_formed"]) \
+                or 2 * nc["accepted"] < nc["given"]:
+            raise core.MachineryFailure(f"C07: the non-convex family is not exercised as designed: {nc}")
         wc_sites, all_sites = sum(t["stats"]["well_centred_sites"] for t in okg), sum(t["stats"]["sites"] for t in okg)
         if 2 * wc_sites < all_sites:
             raise core.MachineryFailure(f"C07: only {wc_sites} of {all_sites} generated sites are well centred (per-site clauses vacuous)")
@@ -313,6 +428,15 @@ def report(ctx, traces, accepted, clauses, what, limit=4):
             detail = f"input {t['key']}; stats {t['stats']}"
             if "Terminals" in clause:
                 detail += f"; terminals {t['TERM']}"
+            # (a description of the rejected trace; TLC has decided)
+            U, P, ana = t["U"], t["P"], t["ANA"]
+            a2 = sum((P[b - 1][0] - P[a - 1][0]) * (P[c - 1][1] - P[a - 1][1]) - (P[b - 1][1] - P[a - 1][1]) * (P[c - 1][0] - P[a - 1][0]) for a, b, c in t["T"])
+            chi = len(P) - len(t["E"]) + len(t["T"])
+            if "Analytic" in clause or chi != 1 - t["holes"] or (ana["have"] and (abs(a2 - ana["area2"]) > 2 * t["PER"] + 4 or not all(ana["ain"]))):
+                detail += f"; V - E + T = {chi} with {t['holes']} hole(s); triangles cover area {a2 / 2 / U / U:.4f}"
+                if ana["have"]:
+                    detail += (f", the specified film minus holes has area {ana['area2'] / 2 / U / U:.4f}; "
+                               f"{sum(1 for x in ana['ain'] if not x)} of {len(P)} sites lie outside the specified domain")
             if "CellAreas" in clause:
                 bad = [(i + 1, s["a"], s["c"]) for i, s in enumerate(t["SITE"]) if s["wc"] and abs(s["a"] - s["c"]) > t["tol"]][:3]
                 detail += f"; (site, code area, cotangent area) {bad}"
@@ -401,10 +525,20 @@ def canaries(ctx, exact, acc_e, gen, acc_g):
         bad.append(t)
     cand = sorted(acc_g)
     withterm = [n for n in cand if gen[n]["TERM"]]
-    for mut in ("outline", "holes", "flip", "cell", "dual", "term"):
-        n = rnd.choice(withterm if mut == "term" and withterm else cand)
+    withana = [n for n in cand if gen[n]["ANA"]["have"]]
+    vlist = [n for n in withana if '"family": "nonconvex"' in gen[n]["key"]]      # reference domain = the harness' own vertex lists
+    for mut in ("outline", "holes", "flip", "cell", "dual", "term", "ana-area", "ana-nholes", "ana-site"):
+        n = rnd.choice(withterm if mut == "term" and withterm else (vlist or withana or cand) if mut.startswith("ana") else cand)
         t = copy.deepcopy(mg.strip_trace(gen[n]))
-        if mut == "outline":
+        if mut.startswith("ana") and not t["ANA"]["have"]:
+            continue
+        if mut == "ana-area":        # the specified domain is larger than what the triangles cover
+            t["ANA"]["area2"] += 2 * t["PER"] + 100
+        elif mut == "ana-nholes":    # one specified hole was not carved (Euler characteristic against the specified number)
+            t["ANA"]["nholes"] += 1
+        elif mut == "ana-site":      # a site outside the specified domain
+            t["ANA"]["ain"][len(t["ANA"]["ain"]) // 2] = False
+        elif mut == "outline":
             i = t["BS"].index(False) if False in t["BS"] else 0
             t["OS"][i] = not t["OS"][i]
         elif mut == "holes":
